@@ -280,6 +280,14 @@ package dbft
 //@        && implies(gCommit != nil, self.header != nil && self.header.Verify(self.Validators[self.MyIndex], gCommit.GetCommit().Signature()) == nil)
 //@        && implies(gPreCommit != nil, self.preBlock != nil && self.preBlock.Verify(self.Validators[self.MyIndex], gPreCommit.GetPreCommit().Data()) == nil)
 //@ pred locked() = gCommit != nil || gPreCommit != nil
+// C05: nothing of the decided height is touched any more (the future-message cache and the liveness notes may change).
+//@ pred quiet() = unchanged(self.ViewNumber, self.PreparationPayloads, self.CommitPayloads, self.PreCommitPayloads, self.ChangeViewPayloads, self.LastChangeViewPayloads,
+//@        self.Transactions, self.TransactionHashes, self.MissingTransactions, self.Timestamp, self.Nonce, self.header, self.block, self.preHeader, self.preBlock,
+//@        self.blockProcessed, self.preBlockProcessed, self.BlockIndex, self.PrimaryIndex) && gTimerArms == old(gTimerArms)
+//@ pred txKept() = forallOf(Transaction, t, implies(old(has(self.Transactions, t.Hash())), has(self.Transactions, t.Hash())))
+//@ pred cachePurged() = forall(h, implies(has(self.cache.mail, h), h > self.BlockIndex))
+//@ bundle UNDECIDED
+//@   requires [C05] @undecided !self.blockProcessed
 //@ bundle INV
 //@   ensures [C03] @said said()
 //@   ensures [C11] @wf wf()
@@ -300,13 +308,18 @@ package dbft
 //@   requires [C02] @tip tip()
 //@   use INV
 //@   ensures  @hist unchanged(self.Validators) && self.BlockIndex == old(self.BlockIndex) && self.ViewNumber >= old(self.ViewNumber) && self.MyIndex == old(self.MyIndex)
-//@   ensures  @arms gTimerArms >= old(gTimerArms)
+//@   ensures  @arms gTimerArms >= old(gTimerArms) && gBroadcasts >= old(gBroadcasts)
+//@   ensures  [C05] @decidedStays implies(old(self.blockProcessed), self.blockProcessed)
+//@   ensures  [C12] @txKept implies(self.ViewNumber == old(self.ViewNumber), forallOf(Transaction, t, implies(old(has(self.Transactions, t.Hash())), has(self.Transactions, t.Hash()))))
 //@   ensures  @heap heapMono()
 //@   ensures  [C10] @timer implies(aview() && (old(timerOK()) || self.ViewNumber != old(self.ViewNumber)), timerOK())
 
 // loop invariant shared by the loops that call back into OnReceive
 //@ bundle LOOPU
 //@   use INV
+//@   ensures gBroadcasts >= old(gBroadcasts)
+//@   ensures [C05] @decidedStays implies(old(self.blockProcessed), self.blockProcessed)
+//@   ensures [C12] @txKept implies(self.ViewNumber == old(self.ViewNumber), forallOf(Transaction, t, implies(old(has(self.Transactions, t.Hash())), has(self.Transactions, t.Hash()))))
 //@   ensures  [C03] @lock implies(old(locked()), self.ViewNumber == old(self.ViewNumber) && implies(old(gCommit) != nil, gCommit == old(gCommit)) && implies(old(gPreCommit) != nil, gPreCommit == old(gPreCommit)))
 //@   ensures  [C03] @sameViewSameWord implies(self.ViewNumber == old(self.ViewNumber) && old(gPrep) != nil, gPrep == old(gPrep))
 //@   ensures sameHeight() && self.ViewNumber >= old(self.ViewNumber) && heapMono() && timerKept()
@@ -385,7 +398,8 @@ package dbft
 //@   requires wf()
 //@   loop 1: invariant len(c.TransactionHashes) == len(txx) && !isnil(c.Transactions) && sametable(txx, gPool)
 //@   loop 1: invariant forall(j, 0, i, c.TransactionHashes[j] == txx[j].Hash() && has(c.Transactions, txx[j].Hash()))
-//@   ensures wf()
+//@   loop 1: invariant txKept()
+//@   ensures wf() && txKept()
 //@   ensures implies(!result, self.Config.MaxTimePerBlock != nil)
 //@   ensures [C15] @unchangedIfRefused implies(!result, unchanged(c.Timestamp, c.Nonce, c.TransactionHashes, c.Transactions) && c.Config.MaxTimePerBlock != nil && !force && len(gPool) == 0)
 //@   ensures [C15] @increasing implies(result, c.Timestamp > c.lastBlockTimestamp)
@@ -466,6 +480,7 @@ package dbft
 
 //@ func (*DBFT).sendPrepareRequest
 //@   use U
+//@   use UNDECIDED
 //@   ensures [C10] @arms gTimerArms > old(gTimerArms)
 //@   requires [C13] @silent notWatchOnly()
 //@   requires self.MyIndex == self.PrimaryIndex && !rsor()
@@ -473,6 +488,8 @@ package dbft
 //@   wraps d.timePerBlock<<(d.ViewNumber+1) unless aview()
 //@ func (*DBFT).sendChangeView
 //@   use U
+//@   use UNDECIDED
+//@   ensures [C12] @speaks implies(notWatchOnly(), gBroadcasts > old(gBroadcasts))
 //@   requires [C03] @lock !locked()
 //@   ensures [C10] @arms notWatchOnly() == false || gTimerArms > old(gTimerArms)
 //@   wraps d.ViewNumber+1 unless aview()
@@ -489,6 +506,7 @@ package dbft
 //@   ensures [C11] @slot slot()
 //@   ensures [C04] @prep prep()
 //@   ensures forall(i, 0, NN(), implies(i != self.MyIndex, self.PreparationPayloads[i] == old(self.PreparationPayloads[i])))
+//@   ensures gBroadcasts == old(gBroadcasts) + 1
 //@   ensures [C04] @names self.PreparationPayloads[self.MyIndex] != nil && gLastBcast == self.PreparationPayloads[self.MyIndex]
 //@        && self.PreparationPayloads[self.MyIndex].GetPrepareResponse().PreparationHash() == self.PreparationPayloads[self.PrimaryIndex].Hash()
 //@   requires [C03] @said said() && gPrep == nil
@@ -525,7 +543,7 @@ package dbft
 //@   ensures [C11] @wf wf()
 //@   requires [C13] @silent notWatchOnly()
 //@   requires [C03] @said said()
-//@   ensures gMaxOwnView <= self.ViewNumber && gMaxOwnView >= old(gMaxOwnView)
+//@   ensures gMaxOwnView <= self.ViewNumber && gMaxOwnView >= old(gMaxOwnView) && gBroadcasts == old(gBroadcasts) + 1 && txKept()
 //@   modifies Context.MissingTransactions, Context.Transactions, gBroadcasts, gLastBcast, gClock, gMaxOwnView
 //@ func (*Context).makeRecoveryMessage
 //@   requires wf() && slot()
@@ -537,17 +555,20 @@ package dbft
 //@   requires [C13] @silent notWatchOnly()
 //@   requires [C03] @said said()
 //@   ensures gMaxOwnView <= self.ViewNumber && gMaxOwnView >= old(gMaxOwnView)
+//@   ensures gLastBcast.Type() == RecoveryMessageType && gBroadcasts == old(gBroadcasts) + 1
 //@   modifies gBroadcasts, gLastBcast, gMaxOwnView
 
 // ---- check.go ----
 
 //@ func (*DBFT).checkPrepare
 //@   use U
+//@   use UNDECIDED
 //@   requires [C13] @silent notWatchOnly()
 //@   loop 1: invariant 0 <= count && count <= idx && implies(hasRequest, rsor())
 //@   loop 1: invariant [C04] @counts count == count(j, 0, idx, curPrep(j))
 //@ func (*DBFT).checkPreCommit
 //@   use U
+//@   use UNDECIDED
 //@   requires [C07] @enabled amev()
 //@   requires rsor()
 //@   loop 1: invariant 0 <= count && count <= idx
@@ -558,13 +579,17 @@ package dbft
 //@ writers [C07] Context.preBlockProcessed : (*DBFT).checkPreCommit, (*Context).reset
 //@ func (*DBFT).checkCommit
 //@   use U
+//@   use UNDECIDED
 //@   requires canMakeHeader()
 //@   loop 1: invariant 0 <= count && count <= idx
 //@   loop 1: invariant [C02,C01] @counts count == count(j, 0, idx, curC(j))
+//@   at call d.ProcessBlock: assert [C05] @once !self.blockProcessed
 //@   at call d.ProcessBlock: assert [C02,C01] @certificate commitCount() >= specM(NN()) && hasAllTx() && arg0 == self.header && arg0 != nil && verc() && prop() && tip()
 //@ callers [C02,C05] Config.ProcessBlock : (*DBFT).checkCommit
+//@ writers [C05] Context.blockProcessed : (*DBFT).checkCommit, (*Context).reset
 //@ func (*DBFT).checkChangeView
 //@   use U
+//@   use UNDECIDED
 //@   requires [C03] @lock !locked()
 //@   loop 1: invariant 0 <= count && count <= idx
 //@   loop 1: invariant [C04] @counts count == count(j, 0, idx, self.ChangeViewPayloads[j] != nil && self.ChangeViewPayloads[j].GetChangeView().NewViewNumber() >= view)
@@ -573,9 +598,13 @@ package dbft
 
 //@ func (*DBFT).addTransaction
 //@   use U
+//@   use UNDECIDED
+//@   ensures [C12] @stored implies(self.ViewNumber == old(self.ViewNumber), has(self.Transactions, tx.Hash()))
+//@   ensures [C12] @answers implies(self.ViewNumber == old(self.ViewNumber) && hasAllTx() && notWatchOnly() && self.MyIndex != self.PrimaryIndex, gBroadcasts > old(gBroadcasts))
 //@   requires tx != nil && rsor()
 //@   requires [C03] @lock !locked() && gPrep == nil
 //@ func (*DBFT).Start
+//@   ensures [C05] @cachePurged cachePurged()
 //@   ensures [C10] @timer implies(aview(), timerOK())
 //@   requires cfgOK() && 0 <= self.rttEstimates.idx && self.rttEstimates.idx < 70
 //@   requires [C03] @noProposalYet true
@@ -583,6 +612,7 @@ package dbft
 //@   requires ts + self.TimestampIncrement <= 18446744073709551615
 //@   use INV
 //@ func (*DBFT).Reset
+//@   ensures [C05] @cachePurged cachePurged()
 //@   ensures [C10] @timer implies(aview(), timerOK())
 //@   requires base()
 //@   requires ts + self.TimestampIncrement <= 18446744073709551615
@@ -598,7 +628,9 @@ package dbft
 //@   ensures @heap heapMono()
 //@   ensures [C10] @timer implies(aview(), timerOK())
 //@   ensures @arms gTimerArms >= old(gTimerArms)
+//@   ensures [C05] @cachePurged implies(view == 0, cachePurged())
 //@   ensures [C03] @freshStart implies(old(forall(h, !has(self.cache.mail, h))), forall(i, 0, NN(), self.PreparationPayloads[i] == nil && self.CommitPayloads[i] == nil && self.PreCommitPayloads[i] == nil) || view > 0)
+//@   ensures [C05] @freshStartView implies(old(forall(h, !has(self.cache.mail, h))) && view == 0, self.ViewNumber == 0 && !self.blockProcessed)
 //@   loop 1: use INV
 //@   loop 1: invariant self.ViewNumber >= view && implies(view > 0, sameHeight()) && heapMono() && inboxOK(msgs) && gTimerArms >= old(gTimerArms)
 //@   loop 2: use INV
@@ -615,43 +647,57 @@ package dbft
 //@ func (*DBFT).OnTransaction
 //@   use U
 //@   requires tx != nil
+//@   ensures [C05] @quiescent implies(old(self.blockProcessed), quiet() && gBroadcasts == old(gBroadcasts))
+//@   ensures [C12] @answers implies(!old(has(self.Transactions, tx.Hash())) && has(self.Transactions, tx.Hash()) && self.ViewNumber == old(self.ViewNumber) && hasAllTx() && notWatchOnly() && !old(self.blockProcessed),
+//@        gBroadcasts > old(gBroadcasts))
 //@ func (*DBFT).OnTimeout
 //@   use U
+//@   ensures [C05] @quiescent implies(old(self.blockProcessed), quiet() && gBroadcasts == old(gBroadcasts))
 //@ func (*DBFT).OnNewTransaction
 //@   use U
+//@   ensures [C05] @quiescent implies(old(self.blockProcessed), quiet() && gBroadcasts == old(gBroadcasts))
 //@ func (*DBFT).onTimeout
 //@   use U
+//@   ensures [C05] @quiescent implies(old(self.blockProcessed), quiet() && gBroadcasts == old(gBroadcasts))
 //@   ensures [C10] @rearm implies(aview() && height == old(self.BlockIndex) && view == old(self.ViewNumber) && !old(self.blockProcessed) && notWatchOnly(), gTimerArms > old(gTimerArms) || self.blockProcessed)
 //@ func (*DBFT).OnReceive
 //@   use U
 //@   requires msg != nil
+//@   ensures [C05] @quiescent implies(old(self.blockProcessed), quiet() && (gBroadcasts == old(gBroadcasts) || (msg.Type() == RecoveryRequestType && gLastBcast.Type() == RecoveryMessageType)))
 //@ pred admitted(msg) = msg != nil && msg.ValidatorIndex() < NN() && msg.Payload() != nil && msg.Height() == self.BlockIndex
 //@ func (*DBFT).onPrepareRequest
 //@   use U
+//@   use UNDECIDED
 //@   requires admitted(msg) && msg.Type() == PrepareRequestType && msg.ViewNumber() <= self.ViewNumber
 // A7 (honest identity): a proposal carrying this node's own index was made by this node, hence is already stored.
 //@   assume @A7 msg.ValidatorIndex() != self.MyIndex || rsor()
 //@ func (*DBFT).onPrepareResponse
 //@   use U
+//@   use UNDECIDED
 //@   requires admitted(msg) && msg.Type() == PrepareResponseType && msg.ViewNumber() <= self.ViewNumber
 //@   assume @A7 msg.ValidatorIndex() != self.MyIndex || self.PreparationPayloads[self.MyIndex] != nil
 //@ func (*DBFT).onChangeView
 //@   use U
+//@   use UNDECIDED
 //@   requires admitted(msg) && msg.Type() == ChangeViewType
 //@ func (*DBFT).onPreCommit
 //@   use U
+//@   use UNDECIDED
 //@   requires admitted(msg) && msg.Type() == PreCommitType && msg.ViewNumber() <= self.ViewNumber
 //@   assume @A7 msg.ValidatorIndex() != self.MyIndex || self.PreCommitPayloads[self.MyIndex] != nil
 //@   requires [C07] @enabled amev()
 //@ func (*DBFT).onCommit
 //@   use U
+//@   use UNDECIDED
 //@   requires admitted(msg) && msg.Type() == CommitType && msg.ViewNumber() <= self.ViewNumber
 //@   assume @A7 msg.ValidatorIndex() != self.MyIndex || self.CommitPayloads[self.MyIndex] != nil
 //@ func (*DBFT).onRecoveryRequest
 //@   use U
 //@   requires admitted(msg)
+//@   ensures [C05] @onlyRecoveryReply quiet() && (gBroadcasts == old(gBroadcasts) || gLastBcast.Type() == RecoveryMessageType)
 //@ func (*DBFT).onRecoveryMessage
 //@   use U
+//@   use UNDECIDED
 //@   requires admitted(msg) && msg.Type() == RecoveryMessageType
 //@   loop 1: use LOOPU
 //@   loop 1: invariant 0 <= validChViews && validChViews <= idx
@@ -663,14 +709,16 @@ package dbft
 //@   loop 4: invariant 0 <= validCommits && validCommits <= idx
 //@ func (*DBFT).processMissingTx
 //@   requires wf()
-//@   loop 1: invariant !isnil(self.Transactions)
-//@   ensures wf()
+//@   loop 1: invariant !isnil(self.Transactions) && txKept()
+//@   ensures wf() && txKept()
 //@   modifies Context.MissingTransactions, Context.Transactions
 //@ func (*DBFT).createAndCheckBlock
 //@   use U
+//@   use UNDECIDED
 //@   requires rsor() && hasAllTx()
 //@   requires [C03] @lock !locked()
-//@   ensures implies(result, unchanged(self.PreparationPayloads, self.PrimaryIndex, self.ViewNumber, self.TransactionHashes, self.Transactions, self.CommitPayloads, self.PreCommitPayloads))
+//@   ensures implies(result, unchanged(self.PreparationPayloads, self.PrimaryIndex, self.ViewNumber, self.TransactionHashes, self.Transactions, self.CommitPayloads, self.PreCommitPayloads, self.blockProcessed))
+//@   ensures [C12] @rejectedAnswers implies(!result && notWatchOnly(), gBroadcasts > old(gBroadcasts))
 //@   ensures [C04] @blockAccepted implies(result, gVerified != nil && (gVerified == self.block || gVerified == self.preBlock))
 //@ func (*DBFT).updateExistingPayloads
 //@   requires wf() && slot() && msg != nil && !rsor() && verc() && said()
@@ -718,6 +766,7 @@ package dbft
 //@   requires cacheOK()
 //@   ensures cacheOK() && (result == nil || inboxOK(result))
 //@   ensures implies(!old(has(self.cache.mail, h)), result == nil)
+//@   ensures [C05] @purged forall(k, implies(has(self.cache.mail, k), k > h && old(has(self.cache.mail, k)) && self.cache.mail[k] == old(self.cache.mail[k])))
 //@   modifies cache.mail
 //@ func (*cache).addMessage
 //@   requires cacheOK() && m != nil
